@@ -240,10 +240,12 @@ def check_acct(eng, run):
             continue
         ifs.append(i)
         # which arm is the short write (sent < len(data))?  `sent < len` == (len - sent > 0) ; `sent >= len` is its complement
+        from sa.norm import if_arms
+        then_arm, else_arm = if_arms(loop, i)
         if op == ">" and d[sent] == -1 and d[length] == 1:
-            short, full = i.body, i.orelse
+            short, full = then_arm, else_arm
         elif op == ">=" and d[sent] == 1 and d[length] == -1:
-            short, full = i.orelse, i.body
+            short, full = else_arm, then_arm
         else:
             continue
         keeps = any(isinstance(s_, ast.Assign) and isinstance(s_.value, ast.Subscript) and isinstance(s_.value.slice, ast.Slice) and isinstance(s_.value.slice.lower, ast.Name)
@@ -482,10 +484,16 @@ def check_sibling_guards(eng, run):
         if a is None or b is None or isinstance(a.node, ast.Lambda) or isinstance(b.node, ast.Lambda):
             continue
 
-        def guard(fn):
+        def guard(fn, depth=0):
             body = [st for st in fn.node.body if not (isinstance(st, ast.Expr) and isinstance(st.value, ast.Constant)) and not isinstance(st, ast.Assert)]
             if body and isinstance(body[0], ast.If) and any(isinstance(r, ast.Raise) for r in body[0].body):
                 return ast.unparse(body[0].test)
+            # the guard factored into a private helper shared by both entry points: `self.__ensure_not_closing()`
+            if body and isinstance(body[0], ast.Expr) and isinstance(body[0].value, ast.Call) and depth < 2:
+                from sa.norm import private_helper
+                h = private_helper(fn, body[0].value)
+                if h is not None and not h.is_async and not body[0].value.args and not body[0].value.keywords:
+                    return guard(h, depth + 1)
             return None
 
         ga, gb = guard(a), guard(b)
